@@ -690,11 +690,16 @@ inline void pomdpSolvers(verif::Rng & rng, long sub) {
             // only "an exception derived from std::exception and the value is unchanged" is required here
             put("GapMin.setInitialTolerance_rejects_negative",
                 throwsAs<std::exception>([&] { solver.setInitialTolerance(-0.5); }) && solver.getInitialTolerance() == t);
-            AP::Belief b(S); b << 0.5, 0.5;
-            const auto [lb, ub, vl, q] = solver(tiger, b);
+            // Not the tiger problem here: GapMin on makeTigerProblem() does not return within 120 s for any initial
+            // tolerance / 1-2 precision digits (reported); a tiny strongly discounted POMDP exercises the same path in < 20 ms.
+            const size_t gS = (size_t)rng.range(1, 2), gA = (size_t)rng.range(1, 2), gO = (size_t)rng.range(1, 2);
+            auto tab = verif::randomPomdp(rng, gS, gA, gO); tab.discount = 0.5;
+            const auto small = verif::toDense(tab);
+            const AP::Belief b = verif::dyadicBelief(rng, gS);
+            const auto [lb, ub, vl, q] = solver(small, b);
             bool okRun = std::isfinite(lb) && std::isfinite(ub) && lb <= ub + 1e-6 * (1.0 + std::fabs(ub))
-                      && !vl.empty() && (size_t)q.cols() == A && solver.getInitialTolerance() == t;
-            for (const auto & e : vl) okRun = okRun && e.action < A && (size_t)e.values.size() == S;
+                      && !vl.empty() && (size_t)q.cols() == gA && solver.getInitialTolerance() == t;
+            for (const auto & e : vl) okRun = okRun && e.action < gA && (size_t)e.values.size() == gS;
             put("GapMin.run_after_setInitialTolerance_bounds_ordered", okRun);
             break;
         }
